@@ -209,6 +209,25 @@ def run(res, tier, replay):
             if len(m) > 3 and m[3][idx][0] == 1 and m[3][idx][2] > 0: lzpos = (m[3][idx][1] + m[3][idx][2]) if o.kv.get("st") == "0" else None
         res.count(m[0])
     res.oblige("search: %d extract calls in %d histories agree with a fresh decompressor" % (ncalls, sum(1 for m in meta if m[0].endswith("-hist"))), nbad == 0)
+    # the Coq witness of the recorded finding chm-skip-through-damaged-interval (Props/ChmDamageSample.v, theorem
+    # C08_chm_history_independence_refuted_for_damaged_interval): the committed file is what its generator writes, and the model and the
+    # C library give the same answers on both sessions of the theorem
+    import importlib.util, os, tempfile
+    from props import chmlib
+    spec = importlib.util.spec_from_file_location("mkds", os.path.join(vlib.VERIF, "tools", "dev", "mk_chm_damage_sample.py")); mkds = importlib.util.module_from_spec(spec); spec.loader.exec_module(mkds)
+    wchm, wnames = mkds.build(); i0 = wnames.index(b"/c0.bin"); i4 = wnames.index(b"/c4.bin")
+    okm, logm, mexe = vlib.build_model_drv()
+    sess = [["x%d" % i0, "x%d" % i4], ["x%d" % i4]]
+    rcw, mow, errw = vlib.run_lines(mexe, ["chm"], [chmlib.model_line(wchm, True, o_) for o_ in sess], timeout=600) if okm else (1, [], logm)
+    tw = scenario.run_scenarios(exe, [chmlib.scn_for(wchm, True, o_) for o_ in sess])
+    cw = [chmlib.c_canonical(t_) for t_ in tw]
+    tmpv = os.path.join(tempfile.mkdtemp(prefix="c08w_"), "w.v"); os.system("python3 %s %s" % (os.path.join(vlib.VERIF, "tools", "dev", "mk_chm_damage_sample.py"), tmpv))
+    same_v = os.path.exists(tmpv) and open(tmpv).read() == open(os.path.join(vlib.VERIF, "coq", "Props", "ChmDamageSample.v")).read()
+    res.oblige("correspondence: the Coq witness of the recorded CHM finding is the generator's file, and model = C library on both of its sessions",
+               same_v and len(mow) == 2 and mow == cw, "file identical: %s; model %s | C %s %s" % (same_v, [x[-40:] for x in mow], [x[-40:] for x in cw], errw[-200:]))
+    if not (same_v and len(mow) == 2 and mow == cw):
+        res.violation("model of chmd_extract and the C library disagree on the witness of the recorded finding (or the committed witness is stale)", chmlib.scn_for(wchm, True, sess[0]).text(), found_input=False)
+    res.traces += 2
     res.traces += ncalls
     res.samples = [" | ".join(l for l in s.lines if not l.startswith("file "))[:300] for s, m in zip(scns, meta) if m[0].endswith("-hist")][:3]
     if not proofs_ok: proof_broken(res, "C08")
